@@ -3,7 +3,28 @@ package main
 import (
 	"fmt"
 	"os"
+	"runtime/pprof"
+	"strconv"
+	"time"
+
+	"verif/harness/internal/tracer"
 )
+
+// watchdog: no trace event for VDRIVE_WATCHDOG seconds (default 300) => dump goroutines, exit 3
+func watchdog() {
+	limit := 300
+	if v, err := strconv.Atoi(os.Getenv("VDRIVE_WATCHDOG")); err == nil && v > 0 {
+		limit = v
+	}
+	for {
+		time.Sleep(5 * time.Second)
+		if time.Since(time.Unix(0, tracer.LastEmit.Load())) > time.Duration(limit)*time.Second {
+			fmt.Fprintf(os.Stderr, "DRIVER-HUNG: no trace event for %d s; goroutines:\n", limit)
+			_ = pprof.Lookup("goroutine").WriteTo(os.Stderr, 1)
+			os.Exit(3)
+		}
+	}
+}
 
 type subcmd func(args []string) int
 
@@ -14,6 +35,7 @@ func main() {
 		fmt.Fprintln(os.Stderr, "usage: vdrive <subcommand> [flags]")
 		os.Exit(2)
 	}
+	go watchdog()
 	f, ok := subcmds[os.Args[1]]
 	if !ok {
 		fmt.Fprintf(os.Stderr, "unknown subcommand %q\n", os.Args[1])
